@@ -191,6 +191,13 @@ func (sx *SPDX) Generate(opts *options.Options, path string) error {
 
 // replacePackage replaces a package with ID originalID with newID
 func replacePackage(doc *Document, originalID, newID string) {
+	// Replacing an ID with itself is a no-op. Without this guard the removal
+	// loop below would drop every package carrying the ID (there is nothing
+	// left to take its place) and leave references to it dangling.
+	if originalID == newID {
+		return
+	}
+
 	// First check if package is described at the top of the SBOM
 	for i := range doc.DocumentDescribes {
 		if doc.DocumentDescribes[i] == originalID {
